@@ -62,7 +62,20 @@ def submitted_task(model: Model, cls: str, t: T.Term):
 class AsyncView:
     """Evaluated bodies of all wrapper methods and task closures, with receiver classification."""
 
+    def __new__(cls, model: Model):
+        # one view per model and process: the evaluation is the expensive part and several rule sets (a property's own and the
+        # mirrored ones) look at the same functions
+        cache = model.__dict__.setdefault("_view_cache", {})
+        if cls.__name__ not in cache:
+            inst = super().__new__(cls)
+            inst._built = False
+            cache[cls.__name__] = inst
+        return cache[cls.__name__]
+
     def __init__(self, model: Model):
+        if self._built:
+            return
+        self._built = True
         self.model = model
         self.ar = AsyncRT(model)
         self.results: Dict[str, Result] = {}  # key: "node.push_step", "conn.push_zip", "node._stop._stopping", ...
